@@ -856,7 +856,9 @@ class C08(Prop):
                     "cases generated from analytic circles (centre in [-30,30]^3, radius 10^U(-1,2), random orthonormal frame, "
                     "sector angle in (0.06, 2pi-0.06) of either sign incl. pi, pi+-1e-3..3e-2; origin arcs with equidistant / "
                     "off-centre origin / flatness; three-point arcs with the given point anywhere on the arc; polylines; other edge "
-                    "kinds for the chord bound); each run through the edge factory of /repo; compared in Coq: third point, length "
+                    "kinds for the chord bound); each run through the edge factory of /repo; (R) Revolve operations (sector angle + axis on the "
+                    "four side edges) moved as a whole by 0..3 of translate/rotate/scale/mirror/invert/copy, assembled: direct oracle on the "
+                    "written arcs (half-way point of the transformed analytic arc, length = radius x angle); compared in Coq: third point, length "
                     "with the branch taken; non-trivial = no end point coordinate is zero (general position); distinct by input")
         cases = self.make_cases(ctx)
         goals = []  # (gid, case index, what, text)
@@ -884,6 +886,9 @@ class C08(Prop):
         for g in guard_probes():
             res.oracle_failures.append(g)
         res.evaluations += 5
+        # (R) sector-angle arcs as operations carry them: Revolve, then moved as a whole (direct oracle only)
+        for f in self.revolve_stream(ctx, res, ctx.n(80, 1500)):
+            res.oracle_failures.append(f)
         res.samples = [dict(case=cases[i], observed=obs[i]) for i in (0, 2, len(cases) // 2, len(cases) - 1)]
         # shard: at most 16 files in the quick tier, goals dealt round-robin so that the files are balanced
         nshards = min(12, max(1, len(goals) // 12)) if ctx.quick else max(16, len(goals) // 60)
@@ -906,6 +911,20 @@ class C08(Prop):
         self._cases = (cases, obs)
         return res
 
+    def revolve_stream(self, ctx, res, n):
+        from props import C07_ctor
+        out, seen = [], set()
+        for _ in range(n):
+            c = C07_ctor.gen_ctor_case(ctx.rng, ctor="revolve")
+            res.evaluations += 1
+            res.count("revolve:%d transforms" % len(c["transforms"]))
+            res.distinct.add("revolve:" + json.dumps(c, sort_keys=True))
+            for f in C07_ctor.check_ctor(c, exact_mid=True, pid="C08"):
+                if f["sig"] not in seen:
+                    seen.add(f["sig"])
+                    out.append(f)
+        return out
+
     # -- S4 --------------------------------------------------------------------------------------
     def search(self, ctx, broken, corr):
         """seeded random search with the direct oracle (no Coq involved)"""
@@ -925,6 +944,8 @@ class C08(Prop):
                 seen.add(bad[0])
                 fails.append(dict(kind=case["kind"], case=case, observed=ob, sig=bad[0], why=bad[1]))
         fails += guard_probes()
+        if not fails:
+            fails += self.revolve_stream(ctx, CorrResult(), ctx.n(300, 3000))
         return fails
 
     def signature(self, rp):
@@ -933,6 +954,17 @@ class C08(Prop):
     def replay(self, ctx, obj):
         if obj.get("kind") == "guard":
             print("oracle:", guard_probes() or "ok")
+            return 0
+        if obj.get("kind") == "ctor":
+            from props import C07_ctor
+            print("input:", json.dumps(obj["case"]))
+            try:
+                ob = C07_ctor.run_ctor_case(obj["case"])
+                print("implementation: entries", json.dumps(ob["entries"]), "wires", json.dumps(ob["wires"]))
+                print("described side edges:", json.dumps(C07_ctor.described(obj["case"])))
+            except Exception as e:  # noqa: BLE001
+                print("implementation raised", type(e).__name__, e)
+            print("oracle:", [(f["why"], f["sig"]) for f in C07_ctor.check_ctor(obj["case"], exact_mid=True, pid="C08")] or "ok")
             return 0
         case = obj.get("case")
         if not case:
